@@ -359,7 +359,7 @@ func TestC11PeerExpiry(t *testing.T) {
 	defer vt.Watch("TestC11PeerExpiry", 120*time.Second)()
 	rec := vt.For("C11")
 	rec.Rule("node X and peers P1..P4 (registered at generated times), unknown ids, duplicates and X itself in reports; rules in virtual time: advance(d in {1ns..10min incl. 60s/120s +-1ns}), P_i check-in, P_i re-register, X keep-alive with a generated report, 'round' (everybody checks in, X reports everybody); at store level (UpdateNodePeers/NodePeers) and pool level (signed vipnode_update, InvalidPeers/ActivePeers), memory and badger; model: tracked[P] = P's own last check-in as of the last time X reported P; on X's keep-alive at t refresh reported registered peers, invalid = tracked entries older than t-120s (exactly 120s: don't-care), forget them, active = the rest; corollaries: a peer checking in every <=60s and reported every round is never invalid, unknown ids never tracked or declared; non-trivial = an eviction with a survivor, an un-reported peer ageing out, or a reappearance; distinct by level+driver+op sequence")
-	rapid.Check(t, func(rt *rapid.T) {
+	check(t, func(rt *rapid.T) {
 		rapid.SyncTest(rt, func(rt *rapid.T) { c11Case(rt, rec) })
 	})
 }
